@@ -90,7 +90,10 @@ type Info15 struct {
 	ShortDst int64
 	// writes through an ObjectsWriter into the sinks of sinkSweep (io.Writer-only, bufio.Writer at every fill level)
 	SinkWrites int64
-	classes    map[string]struct{}
+	// byte strings returned with newBuf=true that the harness overwrote in place (up to their capacity), as their
+	// owner may, before it decoded the same encoding again
+	Scribbled int64
+	classes   map[string]struct{}
 }
 
 func (i *Info15) class(c string) {
@@ -161,6 +164,9 @@ type decoded struct {
 	capPtr uintptr
 	capLn  int
 	grow   func() // appends to the decoded byte string as its owner would (byte strings only)
+	// scribble overwrites the decoded byte string in place, res[:cap(res)], as its owner may (byte strings only; a
+	// decoded string is immutable)
+	scribble func()
 }
 
 var growSink []byte
@@ -278,6 +284,7 @@ func (it Item) codec(info *Info15) codec {
 						d.capPtr = uintptr(unsafe.Pointer(unsafe.SliceData(r)))
 					}
 					d.grow = func() { growSink = append(r, 0xEE, 0xEE, 0xEE, 0xEE, 0xEE, 0xEE, 0xEE, 0xEE, 0xEE, 0xEE, 0xEE, 0xEE) }
+					d.scribble = func() { flip(r[:cap(r)]) }
 					return d
 				}}
 		}
@@ -424,6 +431,9 @@ func run15(c Case15, info *Info15) *vstat.Violation {
 				if v := checkSurvives(w, d, src, 0, size-cd.body, nb); v != nil {
 					return v
 				}
+				if v := checkOwned(w, cd, d, enc, nb, info); v != nil {
+					return v
+				}
 			}
 		}
 	}
@@ -516,6 +526,29 @@ func run15(c Case15, info *Info15) *vstat.Violation {
 		where := fmt.Sprintf("sequence item #%d %s newBuf=%v", i, cd.name, c.Items[i].NB)
 		if v := checkSurvives(where, ds[i], buf, offs[i], cd.size-cd.body, c.Items[i].NB); v != nil {
 			return v
+		}
+	}
+	// the owner of every byte string that was returned with newBuf=true overwrites it in place; the source (restored:
+	// checkSurvives left the encodings of those items flipped) then decodes to the same item sequence once more
+	copy(buf, pristine)
+	scribbled := false
+	for i := range cds {
+		if c.Items[i].NB && ds[i].scribble != nil {
+			ds[i].scribble()
+			info.Scribbled++
+			scribbled = true
+		}
+	}
+	if scribbled {
+		info.class("newBuf_results_overwritten_in_place_then_decoded_again")
+		off = 0
+		for i, cd := range cds {
+			d := cd.decode(buf[off:], true)
+			if v := checkDecoded(fmt.Sprintf("sequence item #%d %s at offset %d, decoded again (newBuf=true) after the byte strings returned with newBuf=true were overwritten in place by their owner", i, cd.name, off), d, cd.size); v != nil {
+				v.Sig = "xbin:newbuf-result-not-owned"
+				return v
+			}
+			off += d.n
 		}
 	}
 	return nil
@@ -683,6 +716,27 @@ func checkSurvives(where string, d decoded, src []byte, start, prefix int, newBu
 	flip(src[start : start+prefix+d.ln])
 	if !d.same() {
 		return vstat.V("xbin:newbuf-depends-on-source", "%s: after overwriting the source buffer the decoded value changed to %s", where, d.shown())
+	}
+	return nil
+}
+
+// checkOwned: a byte string returned with newBuf=true belongs to the caller, who overwrites it in place (every byte up
+// to the capacity). The item's encoding - a fresh copy of it - must decode to the item as before, with newBuf=true and
+// with newBuf=false.
+func checkOwned(where string, cd codec, d decoded, enc []byte, newBuf bool, info *Info15) *vstat.Violation {
+	if !newBuf || d.scribble == nil {
+		return nil
+	}
+	d.scribble()
+	info.Scribbled++
+	info.class("newBuf_results_overwritten_in_place_then_decoded_again")
+	for _, nb := range []bool{true, false} {
+		src := append(make([]byte, 0, len(enc)), enc...)
+		d2 := cd.decode(src, nb)
+		if v := checkDecoded(fmt.Sprintf("%s: decoded again (newBuf=%v) after the value returned with newBuf=true was overwritten in place by its owner", where, nb), d2, cd.size); v != nil {
+			v.Sig = "xbin:newbuf-result-not-owned"
+			return v
+		}
 	}
 	return nil
 }
